@@ -15,9 +15,9 @@ from .. import prng
 from ..driver import Check
 from ..models.green import GreenModel
 
-RHS_KINDS = [("smooth", 4), ("impulse", 4), ("zero", 2), ("big", 2), ("tiny", 1), ("checker", 1), ("weak", 2)]
+RHS_KINDS = [("smooth", 4), ("impulse", 4), ("zero", 2), ("big", 2), ("tiny", 1), ("checker", 1), ("weak", 2), ("edit_prev", 2)]
 VIEW_KINDS = [("plain", 5), ("component", 2), ("padded", 2), ("inplace", 1), ("transposed", 1), ("interleaved", 1)]
-X_RANGES = [1.0, 0.37, 6.283185307179586, 100.0, 1.0e-3, 2.5, 2.0e-6, 3.0e5, 2.0]
+X_RANGES = [1.0, 0.37, 6.283185307179586, 100.0, 1.0e-3, 2.5, 2.0e-6, 3.0e5, 2.0, 1, 3, 7]  # the last three are Python ints
 
 
 def _real_t(precision):
@@ -47,7 +47,7 @@ class C03(Check):
         ],
         "stub": ["FFTW planning rigor (MEASURE -> ESTIMATE)"],
     }
-    required_probes = ["zero_after_big", "two_solvers_interleaved", "vector_solve", "impulse_at_corner", "inplace", "non_square", "fft_unfriendly_size", "view_transposed", "view_interleaved", "large_grid_sparse_rhs", "two_solvers_differing_in_precision_only", "unrelated_fft_user_at_doubled_shape", "concurrent_solves_with_interleaving", "weak_rhs", "two_solvers_same_cell_count_other_shape"]
+    required_probes = ["zero_after_big", "two_solvers_interleaved", "vector_solve", "impulse_at_corner", "inplace", "non_square", "fft_unfriendly_size", "view_transposed", "view_interleaved", "large_grid_sparse_rhs", "two_solvers_differing_in_precision_only", "unrelated_fft_user_at_doubled_shape", "concurrent_solves_with_interleaving", "rhs_array_edited_in_place", "weak_rhs", "two_solvers_same_cell_count_other_shape"]
     tiers = {
         "quick": {"runs": 480, "batch": 6, "timeout": 240},
         "thorough": {"runs": 20000, "batch": 10, "timeout": 600},
@@ -106,9 +106,11 @@ class C03(Check):
 
     def _draw_rhs(self, rng, shape):
         kind = prng.weighted_choice(rng, RHS_KINDS)
-        if int(np.prod(shape)) > 2000 and kind not in ("impulse", "zero"):
+        if int(np.prod(shape)) > 2000 and kind not in ("impulse", "zero", "edit_prev"):
             kind = "impulse"
         r = {"kind": kind, "sub": prng.sub_seed(rng)}
+        if kind == "edit_prev":
+            r["how"] = rng.choice(["negate", "roll", "flip", "swap_two"])  # norm-preserving in-place edits of the caller's array
         if kind == "weak":
             r["scale"] = rng.choice([1.0e-9, 1.0e-12, 3.0e-17, 1.0e-20, 1.0e-30])  # linearity: weak sources are sources
         if kind == "impulse":
@@ -199,6 +201,12 @@ class C03(Check):
         if kind == "checker":
             idx = np.indices(shape).sum(axis=0)
             return (1.0 - 2.0 * (idx % 2)).astype(real_t)
+        if kind == "edit_prev":
+            # outside plain solves (aborted / concurrent ops) there is no held array to edit: two point sources
+            a = np.zeros(shape, dtype=real_t)
+            a[tuple(0 for _ in shape)] = real_t(1.0)
+            a[tuple(n - 1 for n in shape)] = real_t(-2.0)
+            return a
         scale = {"smooth": 1.0, "big": 1.0e6, "tiny": 1.0e-6, "weak": spec.get("scale", 1.0e-9)}[kind]
         return prng.smooth_field(spec["sub"], shape, real_t, scale)
 
@@ -258,6 +266,7 @@ class C03(Check):
             res.probe("two_solvers_same_cell_count_other_shape")
         if len(program["solvers"]) == 2 and program["solvers"][0].get("precision") and program["solvers"][0]["shape"] == program["solvers"][1]["shape"]:
             res.probe("two_solvers_differing_in_precision_only")
+        held = {}
         last_kind = {}
         last_solver = None
         n_solves = {}
@@ -343,7 +352,31 @@ class C03(Check):
             vec = op["kind"] == "vsolve" and dim == 3
             ncomp = 3 if vec else 1
             specs = (op["rhs"] * 3)[:ncomp]
-            rhs_arrays = [self._make_rhs(sp, shape, real_t) for sp in specs]
+            rhs_arrays = []
+            for kk, sp in enumerate(specs):
+                if sp["kind"] == "edit_prev":
+                    # the caller keeps one right-hand-side array per solver and edits it in place between solves
+                    prev = held.get((s, kk))
+                    if prev is None:
+                        prev = self._make_rhs({"kind": "impulse", "cells": [{"cell": [0] * dim, "val": 1.0}, {"cell": [n - 1 for n in shape], "val": -2.0}]}, shape, real_t)
+                    how = sp.get("how", "negate")
+                    if how == "negate":
+                        np.negative(prev, out=prev)
+                    elif how == "roll":
+                        prev[...] = np.roll(prev, 1, axis=-1)
+                    elif how == "flip":
+                        prev[...] = prev[::-1].copy()
+                    else:
+                        flat = prev.reshape(-1)
+                        flat[0], flat[-1] = flat[-1].copy(), flat[0].copy()
+                    held[(s, kk)] = prev
+                    rhs_arrays.append(prev)
+                    res.probe("rhs_array_edited_in_place")
+                else:
+                    a = self._make_rhs(sp, shape, real_t)
+                    if int(np.prod(shape)) <= 2000 or sp["kind"] in ("impulse", "zero"):
+                        held[(s, kk)] = a
+                    rhs_arrays.append(a)
             view = op["view"]
             if vec:
                 rhs_c = np.stack(rhs_arrays)
@@ -361,7 +394,12 @@ class C03(Check):
                 outs = [sol_c[k] for k in range(3)]
                 res.probe("vector_solve")
             else:
-                rhs_v, _rc = self._as_view(view, rhs_arrays[0], i, -3.3e5)
+                if specs[0]["kind"] == "edit_prev" or view == "plain":
+                    rhs_v, view = rhs_arrays[0], ("plain" if view != "inplace" else view)  # the caller's own array object
+                    if view == "inplace":
+                        rhs_v, view = rhs_arrays[0].copy(), "inplace"
+                else:
+                    rhs_v, _rc = self._as_view(view, rhs_arrays[0], i, -3.3e5)
                 if view == "inplace":
                     sol_v = rhs_v
                 else:
